@@ -34,7 +34,7 @@ def E(*es):
     return {int(8 + 2 * e) for e in es}
 
 
-NOVEC = dict(VecSystems=set(), VecValues=set())
+NOVEC = dict(VecSystems=set(), VecValues=set(), VecWays=set())
 EMPTY = dict(ActL=set(), ActM=set(), ActT=set(), ActA=set(), DeclL=set(), DeclM=set(), DeclT=set(), DeclA=set(),
              Values=set(), NumValues=set(), Prefixes=set(), Shapes=set(), MaxSeq=0, TupleDecls=False,
              MaxParams=0, ResultKinds=set(), CallStyles=set(), **NOVEC)
@@ -45,7 +45,8 @@ CFG = {
         "pairs": dict(ActL=E(0, .5, 1, 2), ActM=E(0, 1), ActT=E(-2, -1, 0), ActA=E(-1, 0, 1),
                       DeclL=E(0, 1, 2), DeclM=E(0, 1), DeclT=E(-2, -1, 0), DeclA=E(0, 1),
                       Values={"one", "fhuge", "minute", "zero", "nan"},
-                      NumValues={"one", "sone", "f25", "sf25", "huge", "fminute", "zero", "fzero", "inf", "finf", "nan"},
+                      NumValues={"one", "sone", "f25", "sf25", "frac", "dec", "mpf", "fraczero", "huge", "fminute", "zero", "fzero",
+                                 "inf", "finf", "nan"},
                       Prefixes={"base", "kilo"}, Shapes={"scalar"}, MaxSeq=0, TupleDecls=False,
                       MaxParams=1, ResultKinds={"none"}, **NOVEC),
         # sequences of 0..3 elements (also declared element-wise) and vectors in the three systems
@@ -53,13 +54,15 @@ CFG = {
                        DeclL=E(0, 1), DeclM=E(0), DeclT=E(-1, 0), DeclA=E(0),
                        Values={"one", "zero"}, NumValues={"one", "zero"}, Prefixes={"base"},
                        Shapes={"seq", "vec"}, MaxSeq=3, TupleDecls=True, MaxParams=1, ResultKinds={"none"},
-                       VecSystems={"cart", "cyl", "sph"}, VecValues={"one", "zero"}),
+                       VecSystems={"cart", "cyl", "sph"}, VecValues={"one", "zero"},
+                       VecWays={"infer", "explicit", "base", "baseexplicit"}),
         # results and sequence elements of extreme magnitude (finite, non-zero, outside the range of doubles)
         "extreme_results": dict(ActL=E(0, 1), ActM=E(0), ActT=E(-1, 0), ActA=E(0),
                                 DeclL=E(0, 1), DeclM=E(0), DeclT=E(0), DeclA=E(0),
                                 Values={"one", "fhuge", "minute"},
                                 # results that are bare numbers: Python int / float, SymPy Integer / Float, extremes
-                                NumValues={"one", "sone", "f25", "sf25", "huge", "fminute"}, Prefixes={"base"},
+                                NumValues={"one", "sone", "f25", "sf25", "frac", "dec", "mpf", "fraczero", "huge", "fminute"},
+                                Prefixes={"base"},
                                 Shapes={"scalar"}, MaxSeq=0, TupleDecls=False, MaxParams=1,
                                 ResultKinds={"none", "dim", "same"}, **NOVEC),
         "extreme_seqs": dict(ActL=E(0, 1), ActM=E(0), ActT=E(-1, 0), ActA=E(0),
@@ -77,7 +80,7 @@ CFG = {
         "pairs": dict(ActL=E(-2, -1, 0, .5, 1, 2), ActM=E(0, 1), ActT=E(-2, -1, -.5, 0, 1), ActA=E(-1, 0, 1),
                       DeclL=E(-1, 0, 1, 2), DeclM=E(0, 1), DeclT=E(-2, -1, 0), DeclA=E(0, 1),
                       Values={"one", "big", "tiny", "cplx", "huge", "fhuge", "minute", "fminute", "zero", "inf", "nan"},
-                      NumValues={"one", "sone", "neg", "f25", "sf25", "big", "huge", "fhuge", "minute", "fminute", "zero", "fzero", "inf", "finf",
+                      NumValues={"one", "sone", "neg", "f25", "sf25", "frac", "dec", "mpf", "fraczero", "deczero", "big", "huge", "fhuge", "minute", "fminute", "zero", "fzero", "inf", "finf",
                                  "ninf", "nan", "fnan"},
                       Prefixes={"base", "kilo", "milli"}, Shapes={"scalar"}, MaxSeq=0, TupleDecls=False,
                       MaxParams=1, ResultKinds={"none"}, **NOVEC),
@@ -85,7 +88,8 @@ CFG = {
                        DeclL=E(0, 1), DeclM=E(0), DeclT=E(-1, 0), DeclA=E(0),
                        Values={"one", "zero"}, NumValues={"one", "zero"}, Prefixes={"base"},
                        Shapes={"seq", "vec"}, MaxSeq=3, TupleDecls=True, MaxParams=1, ResultKinds={"none"},
-                       VecSystems={"cart", "cyl", "sph"}, VecValues={"one", "three", "zero"}),
+                       VecSystems={"cart", "cyl", "sph"}, VecValues={"one", "three", "zero"},
+                       VecWays={"infer", "explicit", "base", "baseexplicit"}),
         "protocol": dict(ActL=E(0, 1), ActM=E(0), ActT=E(0), ActA=E(0, 1),
                          DeclL=E(0, 1), DeclM=E(0), DeclT=E(0), DeclA=E(0),
                          Values={"one"}, NumValues={"one", "zero"}, Prefixes={"base"},
@@ -94,7 +98,8 @@ CFG = {
         "results": dict(ActL=E(-1, 0, 1, 2), ActM=E(0, 1), ActT=E(-2, 0), ActA=E(-1, 0, 1),
                         DeclL=E(1), DeclM=E(0), DeclT=E(0), DeclA=E(0),
                         Values={"one", "fhuge", "minute", "zero", "nan"},
-                        NumValues={"one", "sone", "f25", "sf25", "fminute", "zero"}, Prefixes={"base"},
+                        NumValues={"one", "sone", "f25", "sf25", "frac", "dec", "mpf", "fraczero", "deczero", "fminute", "zero"},
+                        Prefixes={"base"},
                         Shapes={"scalar"}, MaxSeq=0, TupleDecls=False, MaxParams=1,
                         ResultKinds={"dim", "same"}, **NOVEC),
     },
@@ -106,7 +111,7 @@ for _tier in CFG.values():
         # the call-style product is explored where several parameters exist; elsewhere positional / keyword
         _c.setdefault("CallStyles", ALL_STYLES if _label == "protocol" else {"pos", "kw"})
 
-INVARIANTS = ["TypeOK", "RunsOnlyIfAllPassed", "ReturnsOnlyIfResultOK", "RefusalIsJustified", "FinalIsAnOutcome",
+INVARIANTS = ["VectorsHoweverBuilt", "TypeOK", "RunsOnlyIfAllPassed", "ReturnsOnlyIfResultOK", "RefusalIsJustified", "FinalIsAnOutcome",
               "VerdictIndependentOfMagnitude", "VerdictIndependentOfPrefix", "VerdictIndependentOfCallStyle",
               "TypeErrorIffBareNonzeroNumber", "AngleIsErased"]
 
@@ -119,17 +124,21 @@ _R = None   # real objects, built once per process
 def _real():
     global _R  # pylint: disable=global-statement
     if _R is None:
+        import decimal
+        import fractions
+        import mpmath
         import sympy as sp
         from sympy.physics import units
         from sympy.physics.units.definitions.dimension_definitions import angle as angle_type
         from symplyphysics import Quantity, QuantityVector, prefixes, validate_input, validate_output
+        from symplyphysics.core.vectors.vectors import Vector
         from symplyphysics.core import verif_hooks
         from symplyphysics.core.coordinate_systems.coordinate_systems import CoordinateSystem
         from symplyphysics.core.quantity_decorator import validate_output_same
         from symplyphysics.core.symbols.symbols import Symbol as SymbolNew
         S = CoordinateSystem.System
         _R = dict(
-            sp=sp, Quantity=Quantity, QuantityVector=QuantityVector, CoordinateSystem=CoordinateSystem,
+            sp=sp, Quantity=Quantity, QuantityVector=QuantityVector, CoordinateSystem=CoordinateSystem, Vector=Vector,
             validate_input=validate_input, validate_output=validate_output, validate_output_same=validate_output_same,
             Symbol=SymbolNew, hooks=verif_hooks, angle=angle_type, Dimension=units.Dimension,
             dim={"L": units.length, "M": units.mass, "T": units.time, "I": units.current, "K": units.temperature,
@@ -137,7 +146,9 @@ def _real():
             unit={"L": units.meter, "M": units.kilogram, "T": units.second, "I": units.ampere, "K": units.kelvin,
                   "N": units.mole, "J": units.candela},
             value={"one": 1, "three": 3, "neg": -7, "f25": 2.5, "big": 10**9, "tiny": sp.Rational(1, 10**6),
-                   "sone": sp.Integer(1), "sf25": sp.Float(2.5), "cplx": 1 + 2 * sp.I, "huge": sp.Integer(10)**400, "fhuge": sp.Float("1e400"),
+                   "sone": sp.Integer(1), "sf25": sp.Float(2.5), "frac": fractions.Fraction(1, 2),
+                   "dec": decimal.Decimal("0.5"), "mpf": mpmath.mpf("0.5"), "fraczero": fractions.Fraction(0),
+                   "deczero": decimal.Decimal(0), "cplx": 1 + 2 * sp.I, "huge": sp.Integer(10)**400, "fhuge": sp.Float("1e400"),
                    "minute": sp.Rational(1, 10**400), "fminute": sp.Float("1e-330"), "zero": 0, "fzero": 0.0, "inf": sp.oo, "finf": float("inf"), "ninf": -sp.oo,
                    "nan": sp.nan, "fnan": float("nan")},
             prefix={"base": 1, "kilo": prefixes.kilo, "milli": prefixes.milli},
@@ -146,7 +157,7 @@ def _real():
     return _R
 
 
-ANYVALS = {"zero", "fzero", "inf", "finf", "ninf", "nan", "fnan"}
+ANYVALS = {"zero", "fzero", "fraczero", "deczero", "inf", "finf", "ninf", "nan", "fnan"}
 
 
 def build_scalar(a):
@@ -179,7 +190,16 @@ def build_vec(a):
             d[2] = [t.numerator, t.denominator]
         expr = v * r["prefix"][a["pre"]] * unit_expr(d)
         comps.append(r["Quantity"](expr, dimension=dim_expr(d)) if d[7][0] != 0 else r["Quantity"](expr))
-    return r["QuantityVector"](comps, r["CoordinateSystem"](r["system"][a["sys"]]))
+    cs = r["CoordinateSystem"](r["system"][a["sys"]])
+    via = a.get("via", "infer")
+    label = dim_expr(a["d"])          # the dimension the vector is said to have (that of its unmixed components)
+    if via == "explicit":
+        return r["QuantityVector"](comps, cs, dimension=label)
+    if via == "base":
+        return r["QuantityVector"].from_base_vector(r["Vector"](comps, cs))
+    if via == "baseexplicit":
+        return r["QuantityVector"].from_base_vector(r["Vector"](comps, cs), dimension=label)
+    return r["QuantityVector"](comps, cs)
 
 
 def build_arg(a, salt=0):
@@ -301,7 +321,7 @@ def describe(a):
     if a["k"] == "seq":
         return "[" + ",".join(describe(x) for x in a["items"]) + "]"
     if a["k"] == "vec":
-        return f"vec:{a['sys']}:{'/'.join(a['vals'])}" + (f":mix{a['mix']}" if a["mix"] else "")
+        return f"vec:{a['sys']}:{'/'.join(a['vals'])}:{a.get('via', 'infer')}" + (f":mix{a['mix']}" if a["mix"] else "")
     if a["k"] == "none":
         return "-"
     return f"{a['k']}:{a['val']}:{a['pre']}"
@@ -472,6 +492,13 @@ def abstract_actual(obj):
         except BaseException:  # pylint: disable=broad-except
             return None, "expression of quantities that Quantity() does not accept"
         return abstract_actual(q)
+    if not isinstance(obj, sp.Basic):          # numbers of other types (Fraction, Decimal, mpf, numpy scalars)
+        try:
+            as_sympy = sp.sympify(obj)
+        except Exception:  # pylint: disable=broad-except
+            as_sympy = None
+        if isinstance(as_sympy, sp.Basic) and as_sympy.is_number:
+            return abstract_actual(as_sympy)
     return None, f"argument of type {type(obj).__name__} (symbolic)"
 
 
